@@ -42,6 +42,38 @@ print(json.dumps({"violates": got != (want_c, want_d, want_c), "observed": got, 
 '''
 
 
+REPLAY_DROP_COND = r'''
+import tempfile, importlib.util, os, sys, shutil
+src = """from guppylang import guppy
+from guppylang.std.builtins import array, owned
+from guppylang.std.option import Option
+@guppy
+def main(o: Option[array[int, 3]] @owned) -> None:
+    o.unwrap()
+"""
+d = tempfile.mkdtemp(dir=os.environ.get("TMPDIR", "/var/tmp")); fn = os.path.join(d, "replay_c14d.py"); open(fn, "w").write(src)
+spec = importlib.util.spec_from_file_location("replay_c14d", fn); m = importlib.util.module_from_spec(spec); sys.modules["replay_c14d"] = m
+try:
+    spec.loader.exec_module(m)
+    from hugr import ops, tys as ht
+    pkg = m.main.compile_function()
+    h = pkg.modules[0]; h = getattr(h, "hugr", h)
+    dangling = []
+    for node in h:
+        op = h[node].op
+        if isinstance(op, ops.FuncDefn): continue
+        for i in range(h.num_out_ports(node)):
+            port = node.out(i); kind = h.port_kind(port)
+            if isinstance(kind, ht.ValueKind) and next(iter(h.linked_ports(port)), None) is None and "array" in str(kind.ty):
+                dangling.append(f"{type(op).__name__} output {i}: {kind.ty}")
+    out = {"violates": bool(dangling), "dangling_affine_ports": dangling[:4]}
+except Exception as ex:
+    out = {"violates": False, "error": repr(ex)[:300]}
+shutil.rmtree(d, ignore_errors=True)
+print(json.dumps(out))
+'''
+
+
 REPLAY_STRUCT_MIXED = r'''
 import tempfile, importlib.util, os, sys, shutil
 src = """from guppylang import guppy
@@ -306,8 +338,12 @@ def run(chk):
     linked = [z3.Bool(f"linked{i}") for i in range(3)]
     needs = [z3.Bool(f"needs_drop{i}") for i in range(3)]
 
-    def t_ins(it):
+    OPKINDS = ["Conditional", "CFG", "DFG", "TailLoop", "Call", "CallIndirect", "ExtOp", "Custom", "LoadConst", "LoadFunc", "UnpackTuple", "MakeTuple", "Input", "Tag", "Case", "DataflowBlock"]
+
+    def t_ins(it, opkind="Op"):
         added, links = [], []
+        for k_ in OPKINDS:
+            e.ext_models[f"hugr.ops.{k_}"] = rec(k_)
         VK = rec("ValueKind")
         e.ext_models["hugr.tys.ValueKind"] = VK
         e.ext_models["hugr.ops.FuncDefn"] = rec("FuncDefn")
@@ -317,7 +353,7 @@ def run(chk):
         ports = [SObj(ClassVal("Port"), {"i": i}) for i in range(3)]
         node = SObj(ClassVal("Node"), {"out": Builtin("out", lambda i: ports[i])})
         fnode = SObj(ClassVal("Node"), {"out": Builtin("out", lambda i: 1 / 0)})
-        data = {id(node): SObj(ClassVal("Data"), {"op": SObj(ClassVal("Op"), {}), "parent": "PARENT"}),
+        data = {id(node): SObj(ClassVal("Data"), {"op": SObj(ClassVal("Op"), {}) if opkind == "Op" else SObj(e.ext_models[f"hugr.ops.{opkind}"], {}), "parent": "PARENT"}),
                 id(fnode): SObj(ClassVal("Data"), {"op": SObj(e.ext_models["hugr.ops.FuncDefn"], {}), "parent": None})}
 
         def linked_ports(p):
@@ -350,6 +386,10 @@ def run(chk):
         conj.append(z3.BoolVal(not any(lk[0] is ports[2] for lk in links) and len(added) == len(links) and all(n.fields["parent"] == "PARENT" for n in added)))
         return z3.And(*conj)
     chk.prove_paths("insert_drops:exactly-one-drop-per-unlinked-value-port-whose-type-requires-it;non-value-ports/FuncDefn-untouched", paths, post_ins, func=f"{CC}:insert_drops")
+    # the same for a node of every kind of operation that can have outputs (only FuncDefn nodes are exempt)
+    for k_ in OPKINDS:
+        chk.prove_paths(f"insert_drops[outputs-of-a-{k_}-node]:exactly-one-drop-per-unlinked-value-port-whose-type-requires-it", e.explore(lambda it, k_=k_: t_ins(it, k_)), post_ins, func=f"{CC}:insert_drops",
+                        replay=lambda m_: {"script": REPLAY_DROP_COND, "input": {}})
     for k in (f"{CC}:requires_drop", f"{CC}:drop_op", f"{CC}:qualified_name"):
         e.models.pop(k, None)
     chk.must_fail("twin:flags-are-free", [], c0 == d0)
